@@ -223,4 +223,73 @@ def firstLoop (G : Grammar) : Nat → FirstTab → Option FirstTab
 
 def firstSets (G : Grammar) (fuel : Nat) : Option FirstTab := firstLoop G fuel (initFirst G)
 
+/-! ### the code as it was before the two `fix:` commits (kept for the refutation witnesses in `Props.C32`)
+
+* `Legacy.parseLoop` : an `Accept` action returned at once, wherever it was met on the stack;
+* `Legacy.firstSets` : nullable symbols were skipped *before* their first set was added, and the
+  nullable flag lived in a separate map. -/
+namespace Legacy
+
+def parseLoop {V : Type} (G : Grammar) (T : Tables) (act : Nat → List V → V) (tokv : Tok → V) :
+    Nat → List (Frame V) → List Tok → Except Err V
+  | 0, _, _ => .error .FuelExhausted
+  | fuel + 1, st, inp =>
+    if isFinal G st then .error .UnboundLocalError
+    else
+      match lookup2 T.action (topState st) (lookAhead inp) with
+      | none => .error .ParserException
+      | some (.shift s') =>
+        (match inp with
+         | [] => parseLoop G T act tokv fuel (⟨eof, s', tokv ⟨eof, 0⟩⟩ :: st) []
+         | t :: rest => parseLoop G T act tokv fuel (⟨t.typ, s', tokv t⟩ :: st) rest)
+      | some (.reduce r) =>
+        (match G.prods[r]? with
+         | none => .error .IndexError
+         | some p =>
+           if p.rhs.length ≤ st.length then
+             let v := act r ((st.take p.rhs.length).reverse.map (·.val))
+             let st' := st.drop p.rhs.length
+             match lookup2 T.goto (topState st') p.lhs with
+             | none => .error .KeyError
+             | some s' => parseLoop G T act tokv fuel (⟨p.lhs, s', v⟩ :: st') inp
+           else .error .IndexError)
+      | some (.accept r) =>
+        (match G.prods[r]? with
+         | none => .error .IndexError
+         | some p =>
+           if p.rhs.length ≤ st.length then
+             .ok (act r ((st.take p.rhs.length).reverse.map (·.val)))
+           else .error .IndexError)
+
+def parse (G : Grammar) (T : Tables) (fuel : Nat) (w : List Tok) : Except Err Tree :=
+  parseLoop G T Tree.node Tree.leaf fuel [] w
+
+/-- the old inner loop `for beta in rule.symbols: if not nullable[beta]: …; break` -/
+def updFirst (tab : FirstTab) (nul : List Nat) (lhs : Nat) : List Nat → FirstTab × Bool
+  | [] => (tab, false)
+  | b :: rest =>
+    if nul.contains b then updFirst tab nul lhs rest
+    else if subset (tab.get b) (tab.get lhs) then (tab, false)
+    else (tab.upd lhs (union (tab.get lhs) (tab.get b)), true)
+
+def firstPass (prods : List Prod) (tab : FirstTab) (nul : List Nat) (changed : Bool) :
+    FirstTab × List Nat × Bool :=
+  match prods with
+  | [] => (tab, nul, changed)
+  | p :: ps =>
+    let newNul := p.rhs.all (fun b => nul.contains b) && !nul.contains p.lhs
+    let nul' := if newNul then p.lhs :: nul else nul
+    let r := updFirst tab nul' p.lhs p.rhs
+    firstPass ps r.1 nul' (changed || newNul || r.2)
+
+def firstLoop (G : Grammar) : Nat → FirstTab → List Nat → Option FirstTab
+  | 0, _, _ => none
+  | fuel + 1, tab, nul =>
+    let r := firstPass G.prods tab nul false
+    if r.2.2 then firstLoop G fuel r.1 r.2.1 else some r.1
+
+def firstSets (G : Grammar) (fuel : Nat) : Option FirstTab := firstLoop G fuel (initFirst G) []
+
+end Legacy
+
 end Model.LR
